@@ -57,17 +57,37 @@ def sizes(tier):
 def gen_plan(rng, tier, index=0):
     if index % sizes(tier)["stationary_every"] == 3:
         p = screens.gen_params(rng.sub("vk"), "VK")
-        return {"mode": "stationary", "params": p, "init_seed": rng.randrange(2 ** 31), "steps": None}
+        # decoys: other instances created earlier in the same process whose parameters differ from the analysed
+        # configuration in exactly one respect (instances must not share anything that depends on it)
+        r = rng.sub("decoy")
+        decoys = []
+        for _ in range(r.weighted([(0, 3), (1, 4), (2, 2)])):
+            what = r.choice(["r0", "L0", "px", "ncol", "nx", "seed_only", "kol"])
+            q = dict(p)
+            if what == "r0":
+                q["r0"] = round(p["r0"] * r.choice([0.25, 0.5, 2.0, 3.0]), 5)
+            elif what == "L0":
+                q["L0"] = round(p["L0"] * r.choice([0.5, 1.5, 2.0]), 5)
+            elif what == "px":
+                q["px"] = round(p["px"] * r.choice([0.5, 2.0]), 5)
+            elif what == "ncol":
+                q["ncol"] = 1 + (p["ncol"] % min(4, p["nx"]))
+            elif what == "nx":
+                q["nx"] = max(4, p["nx"] + r.choice([-1, 1, 3]))
+                q["ncol"] = min(q["ncol"], q["nx"])
+            decoys.append({"what": what, "params": q, "seed": r.randrange(1000), "rows": r.randint(0, 5)})
+        return {"mode": "stationary", "params": p, "decoys": decoys, "init_seed": rng.randrange(2 ** 31), "steps": None}
     n_scr = rng.weighted([(1, 5), (2, 3), (3, 1)])
     scr = []
     for i in range(n_scr):
         r = rng.sub("scr", i)
         kind = r.choice(["VK", "KOL"])
-        p = screens.gen_params(r, kind, small=r.chance(0.7))
+        p = screens.gen_params(r, kind, small=r.chance(0.7), big=(tier == "thorough" and r.chance(0.15)))
         seed = r.weighted([(r.choice([0, 1, 7, 2 ** 32 + 5, r.randrange(2 ** 31)]), 6), ({"gen": r.randrange(2 ** 31)}, 3), ("none", 1)])
         scr.append({"kind": kind, "params": p, "seed": seed})
     r = rng.sub("hist")
-    length = r.weighted([(r.randint(5, 20), 5), (r.randint(20, 60), 3), (r.randint(100, 200), 1)])
+    length = r.weighted([(r.randint(5, 20), 5), (r.randint(20, 60), 3), (r.randint(100, 200), 1)]
+                        + ([(r.randint(400, 1500), 0.5)] if tier == "thorough" else []))
     mix = r.choice([{"add_row": 6, "read": 2, "print": 1, "hold": 0.5, "noise": 1},
                     {"add_row": 3, "read": 3, "print": 3, "hold": 1, "noise": 2},
                     {"add_row": 10, "read": 0.5, "print": 0.2, "hold": 0.2, "noise": 0.2}])
@@ -389,6 +409,22 @@ def execute_stationary(plan, keep_log=False):
         g = seams.ScriptedGenerator(script, seed)
         return g, ips.PhaseScreenVonKarman(nx, p["px"], p["r0"], p["L0"], random_seed=g, n_columns=ncol)
 
+    # ---- history first: decoy instances that differ from the analysed configuration in one parameter
+    for d in plan.get("decoys", []):
+        q = d["params"]
+        try:
+            if d["what"] == "kol":
+                o = ips.PhaseScreenKolmogorov(q["nx"], q["px"], q["r0"], q["L0"], random_seed=d["seed"], stencil_length_factor=2)
+            else:
+                o = ips.PhaseScreenVonKarman(q["nx"], q["px"], q["r0"], q["L0"], random_seed=d["seed"], n_columns=q["ncol"])
+            for _ in range(d["rows"]):
+                o.add_row()
+            res.count("fault.decoy_instance.%s" % d["what"])
+        except Exception:
+            res.count("fault.decoy_instance.raised")
+    if plan.get("decoys"):
+        tag += "-after-" + "+".join(d["what"] for d in plan["decoys"])
+
     # ---- impulse responses of the real recursion
     H, T_used, unstable, unscriptable = [], 0, None, None
     try:
@@ -442,7 +478,7 @@ def execute_stationary(plan, keep_log=False):
         return res
     res.count("stationary.impulse_responses", nx)
     if T_used > 10:
-        res.sig("stationary", nx, ncol, p["px"], p["r0"], p["L0"])
+        res.sig("stationary", nx, ncol, p["px"], p["r0"], p["L0"], tuple(d["what"] for d in plan.get("decoys", [])))
     if T_used > 1000:
         res.count("probe.slow_decay_over_1000_steps")
 
